@@ -305,7 +305,7 @@ def to_str(component: BinaryStr) -> str:
         return f"sha256digest={component[offset:].hex()}"
     elif typ == TYPE_PARAMETERS_SHA256:
         return f"params-sha256={component[offset:].hex()}"
-    elif typ in ALTERNATE_URI_TYPE:
+    elif typ in ALTERNATE_URI_TYPE and length in (1, 2, 4, 8):
         return ALTERNATE_URI_TYPE[typ].format(int.from_bytes(component[offset:], 'big'))
     else:
         ret = ""
